@@ -41,6 +41,7 @@ type Program struct {
 	Copies    []*CopySpec
 	Lanes     []*LaneSpec
 	Readonly  []*ReadonlySpec
+	NoEscape  []*NoEscapeSpec
 	StoresVia []*StoresViaSpec
 	Unrolled  []*UnrolledSpec
 	Owned     map[string][]string // pkgpath.Type -> owned receiver fields
@@ -241,6 +242,7 @@ func (p *Program) parseSpecFuncs(fset *token.FileSet, f *ast.File, pkgPath strin
 		}
 		p.Lanes = append(p.Lanes, parseLaneBlocks(pkgPath, lines, where)...)
 		p.Readonly = append(p.Readonly, parseReadonlyBlocks(pkgPath, lines, where)...)
+		p.NoEscape = append(p.NoEscape, parseNoEscapeBlocks(pkgPath, lines, where)...)
 		p.StoresVia = append(p.StoresVia, parseStoresViaBlocks(pkgPath, lines, where)...)
 		p.Unrolled = append(p.Unrolled, parseUnrolledBlocks(pkgPath, lines, where)...)
 	}
